@@ -383,7 +383,7 @@ def build_items(tier):
                     items.append(({"cfg": list(cfg), "script": name, "k": k, "kind": "silent", "slow_logout": True}, 0, []))
                 if tier != "quick":
                     items.append(({"cfg": list(cfg), "script": name, "k": k, "kind": "silent", "explore": True},
-                                  1, ["early", "order"]))
+                                  3, ["early", "order", "batch"]))
     return items
 
 
